@@ -403,3 +403,11 @@ package device
 //@   ensures [C01] old(Inv(d)) && old(envKey(d, ie)) ==> Inv(d)
 //@   safety [C01,C05]
 //@   modifies d.keyTracker[_], d.actionTracker[_], d.noteTracker[_], d.activeNotesCounter[_][_], d.octave, d.semitone, d.channel, d.mapping, d.ccLearning, d.multiNote, heap("[]int"), heap("*[1]int"), out, outLen, sounding, sigs, d.externalNoteTracker, heap("map[byte]map[byte]bool"), heap("map[byte]bool")
+
+// ---- axis events
+
+//@ func (*Device).handleABSEvent
+//@   requires wf(d) && tableOK(d) && ie != nil
+//@   ensures wf(d) && tableOK(d)
+//@   ensures [C01] old(Inv(d)) ==> Inv(d)
+//@   modifies d.keyTracker[_], d.actionTracker[_], d.analogNoteTracker[_], d.lastAnalogValue[_][_], d.ccZeroed[_], d.octave, d.semitone, d.channel, d.mapping, d.ccLearning, out, outLen, sounding, d.externalNoteTracker, heap("map[byte]map[byte]bool"), heap("map[byte]bool")
